@@ -10,7 +10,22 @@
 (*             matchAll : BOOLEAN, rewrite : Str, backend : STRING, ipf : Filter]                *)
 (*   Hdr    = [key : STRING, values : Seq(Str), re : RE]                                         *)
 (*   req    = [host, m, path : Str, hdr : [key -> Str] (absent key = absent header = ""),        *)
-(*             ip : Addr]                                                                        *)
+(*             ip : Addr (, via : STRING)]                                                       *)
+(*             ip is the client address - the address C05 speaks of.  A request tells it to the  *)
+(*             server in one of several ways, and the optional field `via` says which (no        *)
+(*             operator of this module looks at it: the outcome must be the same whichever way   *)
+(*             the client address arrives):                                                      *)
+(*               "remote"   (or no field) the peer address of the connection                     *)
+(*               "xff", "xri"   X-Forwarded-For resp. X-Real-IP holds just ip                    *)
+(*               "xffchain" X-Forwarded-For lists proxy hops with private, loopback or           *)
+(*                          link-local addresses around ip; the connection comes from a private  *)
+(*                          address                                                              *)
+(*               "xrichain" X-Forwarded-For lists such hops only, X-Real-IP holds ip             *)
+(*             In the last two, as in the first three, ip is public and is the ONLY public       *)
+(*             address the request names: every reading of "client address taken from            *)
+(*             X-Forwarded-For / X-Real-IP / RemoteAddr" yields it.  Requests naming several     *)
+(*             public addresses are outside the universes (which one is the client is not for    *)
+(*             the property to say), clients with a non-public address come via "remote" only.  *)
 (*             m is the method token as sent: any string, not only one of the nine methods a     *)
 (*             configuration may list (PURGE, PROPFIND, lower-case "get" are requests too; an    *)
 (*             entry with a method list matches exactly the listed tokens).                      *)
@@ -316,6 +331,17 @@ Purge == /\ cache # EmptyCache \/ cache0 # EmptyCache
          /\ cache' = EmptyCache /\ cache0' = EmptyCache
          /\ last' = [a |-> "purge"]
          /\ UNCHANGED <<cfg, n>>
+
+(* The environment: backend b (a pipeline) is deleted while the server runs, without a reload of   *)
+(* the server.  cfg.mapper is the set of backend names that exist at the time of a request:       *)
+(* "a matched backend name that does not exist yields 503" speaks of that moment, so requests      *)
+(* routed to b after this step get 503 whatever they got before.  (Not part of Next: the mapper    *)
+(* is looked up at dispatch in both layers, Dispatch(cfg, ...), so the step adds nothing to the    *)
+(* refinement checks; the behaviour generator uses it.)  last.q keeps the request served last.     *)
+Unmap(b) == /\ b \in cfg.mapper
+            /\ cfg' = [cfg EXCEPT !.mapper = @ \ {b}]
+            /\ last' = [a |-> "unmap", be |-> b, q |-> last.q]
+            /\ UNCHANGED <<cache, cache0, n>>
 
 Next == (\E q \in Reqs : Request(q)) \/ Evict
 Spec == Init /\ [][Next]_vars
